@@ -3,6 +3,7 @@
 From Coq Require Import Reals Lra List.
 From PUN Require Import Base.Num Model.Interval Model.IntervalFun Model.Pbox Model.B2B
                         Proofs.ListR Proofs.PboxWF Proofs.IntervalOps Proofs.B2B Proofs.DepOps Proofs.Lattice Proofs.Stacking Proofs.Iso Proofs.IsoNum.
+From PUN Require Import Model.PboxArith Gen.GenGlue Proofs.Glue.
 Import ListNotations.
 Open Scope R_scope.
 
@@ -63,6 +64,15 @@ Proof. exact (is_ginv_dom s s' w a v v'). Qed.
 Theorem C12_sort_preserves_order (a b : list R) : ple a b -> ple (Rsort a) (Rsort b).
 Proof. exact (sort_ple a b). Qed.
 
+(* TIE: the p-box operations these theorems are about are the ones translated from pba/pbox_abc.py on every run (Gen/GenGlue.v) *)
+Theorem C12_operations_are_translated (N : Num) (steps : nat) (p_lo p_hi : N) (p q : pbox N) (d : dep) fuel :
+  gen_add N steps p_lo p_hi fuel p q d = padd N steps p_lo p_hi d p q /\
+  gen_sub N steps p_lo p_hi fuel p q d = psub N steps p_lo p_hi d p q /\
+  gen_mul N steps p_lo p_hi mul_fuel p q d = pmul N steps p_lo p_hi d p q /\
+  gen_div N steps p_lo p_hi mul_fuel p q d = pdiv N steps p_lo p_hi d p q.
+Proof. exact (conj (gen_add_is_model N steps p_lo p_hi fuel p q d) (conj (gen_sub_is_model N steps p_lo p_hi fuel p q d)
+              (conj (gen_mul_is_model N steps p_lo p_hi p q d) (gen_div_is_model N steps p_lo p_hi p q d)))). Qed.
+
 Print Assumptions C12_interval_ops.
 Print Assumptions C12_expressions.
 Print Assumptions C12_frechet.
@@ -107,3 +117,4 @@ Print Assumptions C12_number_op_decreasing.
 Print Assumptions C12_negation.
 Print Assumptions C12_reciprocal.
 Print Assumptions C12_monotone_map.
+Print Assumptions C12_operations_are_translated.
